@@ -34,6 +34,8 @@ struct Track
     static std::set<const void*>& live() { static std::set<const void*> s; return s; }
     static bool& trap() { static bool t = false; return t; }
     static long& countdown() { static long c = -1; return c; } // >= 0: that many assignments still succeed, then one throws
+    static long& ccount() { static long c = -1; return c; }    // the same for constructions from arguments / copy constructions
+    static bool& cpending() { static bool b = false; return b; } // arm ccount at the moment the container is entered
 };
 struct ElemThrow {};
 
@@ -51,12 +53,21 @@ inline void tick() noexcept(!Throwing)
     }
 }
 
+// a constructor from the emplace arguments (or a copy constructor) that throws on demand: BEFORE the object exists, so a
+// thrown construction never enters the live set.  The counting types C and M keep NOEXCEPT move operations (so that
+// is_nothrow_move_constructible is true for them) while their other constructors may throw; T and U may throw anywhere.
+inline void tickc()
+{
+    long& c = Track::ccount();
+    if (c == 0) { c = -1; throw ElemThrow(); }
+    if (c > 0) --c;
+}
 // the throwing decision is taken BEFORE the assignment changes anything
 #define ELEM_COMMON(NAME, THROWING)                                                                                    \
     int v;                                                                                                             \
     NAME() noexcept : v(0) { reg(this); }                                                                              \
-    explicit NAME(int x) noexcept : v(x) { reg(this); }                                                                \
-    NAME(int a, int b) noexcept : v(a + b) { reg(this); }                                                              \
+    explicit NAME(int x) : v(x) { tickc(); reg(this); }                                                                \
+    NAME(int a, int b) : v(a + b) { tickc(); reg(this); }                                                              \
     NAME(NAME&& o) noexcept(!THROWING) : v(o.v) { alive(&o); o.v = -1; reg(this); }                                    \
     NAME& operator=(NAME&& o) noexcept(!THROWING)                                                                      \
     {                                                                                                                  \
@@ -67,7 +78,7 @@ inline void tick() noexcept(!Throwing)
     ~NAME() { unreg(this); }
 
 #define ELEM_COPY(NAME, THROWING)                                                                                      \
-    NAME(const NAME& o) noexcept(!THROWING) : v(o.v) { alive(&o); reg(this); }                                         \
+    NAME(const NAME& o) : v(o.v) { alive(&o); tickc(); reg(this); }                                                    \
     NAME& operator=(const NAME& o) noexcept(!THROWING)                                                                 \
     {                                                                                                                  \
         alive(this); alive(&o); tick<THROWING>();                                                                      \
@@ -152,6 +163,7 @@ struct Op
     std::vector<long> a; // numeric arguments (object indices, capacity, position, value)
     std::vector<int> xs; // list argument
     long plan = -1;
+    bool cthrow = false; // suffix !c: the element constructor invoked with the emplace arguments throws
     long form = 0; // suffix ~f: which overload / value category / argument form the driver uses (same operation for the model)
 };
 
@@ -161,8 +173,12 @@ bool parse_op(const std::string& w0, Op& op)
     auto bang = w.find('!');
     if (bang != std::string::npos)
     {
-        op.plan = std::atol(w.c_str() + bang + 1);
-        if (op.plan < 0) return false;
+        if (w.substr(bang + 1) == "c") op.cthrow = true;
+        else
+        {
+            if (w.size() == bang + 1 || w.find_first_not_of("0123456789", bang + 1) != std::string::npos) return false;
+            op.plan = std::atol(w.c_str() + bang + 1);
+        }
         w = w.substr(0, bang);
     }
     auto tilde = w.find('~');
@@ -224,6 +240,8 @@ struct Interp
     using FV = nitro::lang::fixed_vector<E>;
     static constexpr bool COPY = traits<E>::copy;
     static constexpr bool THR = traits<E>::thr;
+    static constexpr bool CFAULT = std::is_same<E, ElemC>::value || std::is_same<E, ElemM>::value || std::is_same<E, ElemT>::value ||
+                                   std::is_same<E, ElemU>::value;
     std::array<std::optional<FV>, NPOOL> pool;
     std::array<bool, NPOOL> mf{};
     std::array<std::string, NPOOL> shadow;
@@ -424,6 +442,12 @@ struct Interp
     bool refused(const Op& op)
     {
         if ((needs_copy(op) && !COPY) || (op.plan >= 0 && !THR)) return true;
+        if (op.cthrow)
+        {
+            // only where the container itself constructs the element from the arguments, for the instance-counting types
+            if (!CFAULT || !(op.name == "eb" || op.name == "em")) return true;
+            if (!(op.form == 0 || op.form == 1 || op.form == 5 || (op.form == 4 && COPY))) return true;
+        }
         for (auto i : writes(op)) if (i >= NPOOL) return true;
         for (auto i : uses(op)) if (i >= NPOOL) return true;
         if ((op.name == "nl" || op.name == "la" || op.name == "il" || op.name == "nfi") && op.xs.size() > 5) return true;
@@ -473,6 +497,7 @@ struct Interp
     template <typename... A>
     static std::size_t emplace_any(FV& v, typename FV::pointer pos, bool back, A&&... a)
     {
+        if (Track::cpending()) { Track::cpending() = false; Track::ccount() = 0; } // all arguments exist: arm now
         if (back) return v.emplace_back(std::forward<A>(a)...);
         v.emplace(pos, std::forward<A>(a)...);
         return v.size() - 1;
@@ -517,8 +542,8 @@ struct Interp
     {
         const std::string& n = op.name;
         std::size_t i = op.a[0];
-        auto arm = [&] { if (THR) Track::countdown() = op.plan; };
-        struct Disarm { ~Disarm() { Track::countdown() = -1; } } disarm;
+        auto arm = [&] { if (THR) Track::countdown() = op.plan; Track::cpending() = op.cthrow; };
+        struct Disarm { ~Disarm() { Track::countdown() = -1; Track::ccount() = -1; Track::cpending() = false; } } disarm;
         std::string ok = "D";
         // --- operations that do not need an existing pool[i]
         if (n == "n") { pool[i].reset(); arm(); pool[i].emplace(static_cast<std::size_t>(op.a[1])); return ok; }
@@ -714,7 +739,7 @@ struct Interp
             catch (const nitro::except::exception&) { oc = "R"; }
             catch (const ElemThrow&) { oc = "F"; }
             catch (const std::exception& e) { oc = std::string("E(") + typeid(e).name() + ")"; }
-            Track::countdown() = -1;
+            Track::countdown() = -1; Track::ccount() = -1; Track::cpending() = false;
             const std::string& n = op.name;
             std::size_t i = op.a[0];
             if ((n == "mv" || n == "ma") && oc[0] == 'D') { mf[i] = false; mf[op.a[1]] = true; }
